@@ -211,6 +211,14 @@ class SpecEval:
     def fn_subset(self, node):
         return V.mk_bool(O.set_subset(self.ev(node.args[0]), self.ev(node.args[1])))
 
+    def fn_card_subset_hint(self, node):
+        """true; adds the finite-set fact  A subset of B  =>  |A| <= |B|  for these two sets."""
+        a, b = self.ev(node.args[0]), self.ev(node.args[1])
+        self.facts.extend(O.facts_for_card(a))
+        self.facts.extend(O.facts_for_card(b))
+        self.facts.append(z3.Implies(O.set_subset(a, b), V.set_card(a) <= V.set_card(b)))
+        return V.mk_bool(True)
+
     def fn_disjoint(self, node):
         a, b = self.ev(node.args[0]), self.ev(node.args[1])
         (es,) = a.ty.elem.sorts()
